@@ -523,6 +523,9 @@ func init() {
 		models["(*github.com/cosmos/cosmos-sdk/codec.ProtoCodec)."+m] = func(it *Interp, a []Val) Val { return it.codecMethod(nil, m, a[1:]) }
 	}
 	execThroughPrefixes = append(execThroughPrefixes, "(github.com/cosmos/ibc-go/v3/modules/core/04-channel/types.Packet).Get")
+	execThrough["github.com/cosmos/ibc-go/v3/modules/core/04-channel/types.NewErrorAcknowledgement"] = true
+	execThrough["github.com/cosmos/ibc-go/v3/modules/core/04-channel/types.NewResultAcknowledgement"] = true
+	execThrough["(github.com/cosmos/ibc-go/v3/modules/core/04-channel/types.Acknowledgement).Success"] = true
 	execThrough[sdkT+".NewIntFromString"] = true
 }
 
@@ -642,5 +645,36 @@ func init() {
 		return Tuple{&StrV{T: dir}, IfaceV{}}
 	}
 	models["os.MkdirTemp"] = models["io/ioutil.TempDir"]
+	models["os.TempDir"] = func(it *Interp, a []Val) Val {
+		dir := Var(it.p.freshName("env.os.TempDir"), SStr)
+		it.p.sources = append(it.p.sources, Source{Kind: "str", Tag: "env:os.TempDir", Terms: []*Term{dir}})
+		it.p.envReads = append(it.p.envReads, "os.TempDir")
+		it.strLenTerm(dir)
+		return &StrV{T: dir}
+	}
+	envFails := func(name string) modelFn {
+		return func(it *Interp, a []Val) Val {
+			fails := Var(it.p.freshName("env."+name+".fails"), SBool)
+			it.p.sources = append(it.p.sources, Source{Kind: "bool", Tag: "env:" + name + " fails", Terms: []*Term{fails}})
+			it.p.envReads = append(it.p.envReads, name)
+			if it.p.branch(fails) {
+				return it.newErr(IfaceV{}, name+" failed")
+			}
+			return IfaceV{}
+		}
+	}
+	models["os.MkdirAll"] = envFails("os.MkdirAll")
+	models["os.Mkdir"] = envFails("os.Mkdir")
+	models["path/filepath.Join"] = func(it *Interp, a []Val) Val {
+		sl := a[0].(*SliceV)
+		out := strLit("")
+		for i := 0; i < sl.Len; i++ {
+			if i > 0 {
+				out = it.strConcat(out, strLit("/"))
+			}
+			out = it.strConcat(out, (*sl.Arr)[sl.Off+i].(*StrV))
+		}
+		return out
+	}
 	models["os.RemoveAll"] = func(it *Interp, a []Val) Val { return IfaceV{} }
 }
